@@ -50,20 +50,22 @@ def scenario(args):
         if kind == "revoke-early":
             # revocation before any pair is selected / during nomination
             moment = rng.choice(["before-signalling", "mid-signalling", "after-cands"])
+            rev = rng.choice("AB")      # the controlling side (A) still selects a pair through its own checks
+            info["revoker"] = rev
             steps = sc.signalling_steps(rng, cfg)
             if moment == "before-signalling":
-                s.op("consentlost B 1 1")
+                s.op(f"consentlost {rev} 1 1")
             for i, st in enumerate(steps):
                 s.op(st)
                 if moment == "mid-signalling" and i == len(steps) // 2:
-                    s.op("consentlost B 1 1")
+                    s.op(f"consentlost {rev} 1 1")
             if moment == "after-cands":
                 s.op(f"run {rng.choice([0, 20, 45, 120])}")
-                s.op("consentlost B 1 1")
+                s.op(f"consentlost {rev} 1 1")
             s.op("runidle 60000")
-            # no crash is the claim; additionally: every authenticated request B got after the revocation is answered 403
-            bad += check_403_after_revoke(s)
-            bad += probe_after_revoke(s, rng)
+            # no crash is the claim; additionally: every authenticated request the revoker got afterwards is answered 403
+            bad += check_403_after_revoke(s, rev)
+            bad += probe_after_revoke(s, rng, rev)
             return dict(seed=seed, kind=kind, bad=bad, script=s.script, info=info)
         steps = sc.signalling_steps(rng, cfg)
         sc.deliver_signalling(s, rng, steps)
@@ -152,12 +154,13 @@ def first_state(s, ag, state, after=0):
     return None
 
 
-def probe_after_revoke(s, rng):
+def probe_after_revoke(s, rng, rev="B"):
     """B revoked its consent locally: whatever happened since (pairs selected or replaced, READY announced), properly
     authenticated checks that reach B later must still be answered 403.  The probes are built outside libnice with the
     stream's real credentials and sent from A's own candidate address."""
     bad = []
-    ca, cb = s.op("getcreds A 1")[1].split(), s.op("getcreds B 1")[1].split()
+    oth = "A" if rev == "B" else "B"
+    ca, cb = s.op(f"getcreds {oth} 1")[1].split(), s.op(f"getcreds {rev} 1")[1].split()
     if len(ca) < 7 or len(cb) < 7:
         return bad
     ua, ub, pwb = ca[4], cb[4], cb[6]
@@ -172,47 +175,47 @@ def probe_after_revoke(s, rng):
     for k in range(3):
         txid = bytes(rng.randrange(256) for _ in range(12))
         attrs = [(stunpy.A_USERNAME, (ub + ":" + ua).encode()), (stunpy.A_PRIORITY, struct.pack("!I", 1845501695)),
-                 (stunpy.A_CONTROLLING, struct.pack("!Q", 2 ** 64 - 1))]
+                 ((stunpy.A_CONTROLLING if oth == "A" else stunpy.A_CONTROLLED), struct.pack("!Q", 2 ** 64 - 1 if oth == "A" else 0))]
         p = stunpy.build(0, 1, txid, attrs, key=pwb.encode(), fingerprint=True)
-        s.op(f"inject {addrs['A'][0]} {addrs['B'][0]} {p.hex()}")
+        s.op(f"inject {addrs[oth][0]} {addrs[rev][0]} {p.hex()}")
         sent[(struct.pack("!I", stunpy.MAGIC) + txid).hex()] = k
         s.op("run 1500")
     answers = {}
     for e in s.events():
-        m = re.match(r"t=\d+ tx B \S+ len=\d+ stun class=(\d) method=1 .*err=(\d+) .*txid=(\w+)", e)
+        m = re.match(rf"t=\d+ tx {rev} \S+ len=\d+ stun class=(\d) method=1 .*err=(\d+) .*txid=(\w+)", e)
         if m and m.group(3) in sent:
             answers[m.group(3)] = (m.group(1), m.group(2))
     for t, k in sent.items():
         a = answers.get(t)
         if a is None:
-            bad.append(("probe-unanswered", f"authenticated check #{k} sent to B after its local revocation got no answer at all"))
+            bad.append(("probe-unanswered", f"authenticated check #{k} sent to the revoker after its local revocation got no answer at all"))
         elif a != ("3", "403"):
-            bad.append(("not-403", f"authenticated check #{k} sent to B long after its local revocation was answered with class={a[0]} "
-                                   f"err={a[1]} instead of 403 (B state: {s.op('q B 1 1')[1][:60]})"))
+            bad.append(("not-403", f"authenticated check #{k} sent to the revoker long after its local revocation was answered with class={a[0]} "
+                                   f"err={a[1]} instead of 403 (revoker {rev}: {s.op(f'q {rev} 1 1')[1][:60]})"))
     return bad[:2]
 
 
-def check_403_after_revoke(s):
+def check_403_after_revoke(s, rev="B"):
     """after `consentlost B`, every authenticated request B receives must be answered with 403"""
     bad = []
     seen_revoke = False
     pending = {}
     for op, evs, status in s.trace:
-        if op.startswith("consentlost B"):
+        if op.startswith(f"consentlost {rev}"):
             seen_revoke = True
             if "ret 1" not in status and "ret 0" not in status:
                 bad.append(("revoke-api", status))
         if not seen_revoke:
             continue
         for e in evs:
-            m = re.match(r"t=(\d+) rx B \S+ len=\d+ stun class=0 method=1 .*mi=1 txid=(\w+)", e)
+            m = re.match(rf"t=(\d+) rx {rev} \S+ len=\d+ stun class=0 method=1 .*mi=1 txid=(\w+)", e)
             if m:
                 pending[m.group(2)] = e
-            m = re.match(r"t=(\d+) tx B \S+ len=\d+ stun class=(\d) method=1 .*err=(\d+) .*txid=(\w+)", e)
+            m = re.match(rf"t=(\d+) tx {rev} \S+ len=\d+ stun class=(\d) method=1 .*err=(\d+) .*txid=(\w+)", e)
             if m and m.group(4) in pending:
                 if not (m.group(2) == "3" and m.group(3) == "403"):
                     # allowed only if B has no selected pair / component (consentlost returned 0)
-                    bad.append(("not-403", f"after local revocation B answered a check with class={m.group(2)} err={m.group(3)}: {e[:120]}"))
+                    bad.append(("not-403", f"after local revocation the revoker answered a check with class={m.group(2)} err={m.group(3)}: {e[:120]}"))
                 del pending[m.group(4)]
     return bad[:3]
 
